@@ -179,15 +179,16 @@ class FlowGen:
         if fl.psbt_version == 2:
             psbt = psbt.to_v2()
             # BIP370: inputs may require a lock time; the transaction's is then computed from them, not the fallback
-            if r.random() < 0.4:
-                for k in r.sample(range(len(shapes)), r.choice([1, min(2, len(shapes))])):
-                    if r.random() < 0.7:
+            if r.random() < 0.45:
+                # one kind per transaction (heights or times), on one input or on several; now and then an input that
+                # carries both kinds beside inputs of the chosen one, which BIP370 resolves
+                kind = r.choice(["height", "time"])
+                for k in r.sample(range(len(shapes)), r.choice([1, min(2, len(shapes)), len(shapes)])):
+                    if kind == "height" or r.random() < 0.15:
                         psbt.inputs[k].required_height_lock_time = r.choice([1, 100, 144, 499_999_999])
-                    else:
-                        psbt.inputs[k].required_time_lock_time = r.choice([500_000_000, 1_700_000_000])
-                if any(p.required_height_lock_time for p in psbt.inputs) and any(p.required_time_lock_time for p in psbt.inputs):
-                    for p in psbt.inputs:      # BIP370 refuses a mix that no lock time satisfies: keep the heights
-                        p.required_time_lock_time = None
+                    if kind == "time" or r.random() < 0.15:
+                        psbt.inputs[k].required_time_lock_time = r.choice([500_000_000, 1_700_000_000, 1_234_567_890])
+                fl.note["required_lock_time_kind"] = kind
                 fl.note["required_lock_times"] = True
                 if outcome_ok(psbt.assert_valid) is False:
                     for p in psbt.inputs:
